@@ -132,7 +132,8 @@ fn check_all(ctx: &mut Ctx, m: &SetModel, rng: &mut Rng, all_chains: &[Vec<usize
     // ... every raw-vector / iterator route gives the same BitVector ...
     if let Ok(Any::B(d)) = &directs[0] {
         let bits = m.to_bits();
-        for (name, bv) in [("raw.push", guard(|| mk::bv_push(&bits, rng))), ("from_iter", guard(|| mk::bv_iter(&bits)))] {
+        let via_pops = guard(|| BitVector::from(mk::raw_push_pop(&bits, rng)));
+        for (name, bv) in [("raw.push", guard(|| mk::bv_push(&bits, rng))), ("from_iter", guard(|| mk::bv_iter(&bits))), ("raw.push_pop", via_pops)] {
             ctx.checks += 1;
             match bv {
                 Ok(bv) => {
